@@ -55,6 +55,8 @@ def template(kind='vars', extra='', lit=None):
                          ('sequence-start', 'b_start'), ('sequence-end', 'b_end')):
                 row = row.replace(a, b)
             src = '<dtml-in seq start=st end=en size=sz orphan=orp overlap=ov prefix=b>' + row + '<dtml-else>EMPTY</dtml-in>'
+        elif kind == 'guard':          # a template class that supplies guards, elements the guard refuses are left out
+            src = SRC_VARS.replace('overlap=ov>', 'overlap=ov skip_unauthorized>') % extra
         elif kind == 'reent':          # the first displayed element's body renders the same template object again, with other parameters
             src = SRC_VARS % ('<dtml-if sequence-start><dtml-call reenter></dtml-if>' + extra)
         elif kind == 'lit':
@@ -66,10 +68,29 @@ def template(kind='vars', extra='', lit=None):
                    '<!--#else-->EMPTY<!--#/in-->')
         else:
             raise ValueError(kind)
-        t = HTML(src)
+        t = (_guarded_class() if kind == 'guard' else HTML)(src)
         if kind != 'lit':
             _templates[key] = t
     return t
+
+
+class _Refuse:
+    lo = hi = 0          # the guard refuses the elements lo..hi (by what they are)
+
+
+def _guarded_class():
+    from DocumentTemplate.DT_HTML import HTML
+    from zExceptions import Unauthorized
+    c = _templates.get('__guarded__')
+    if c is None:
+        def guarded_getitem(ob, index):
+            v = ob[index]
+            if isinstance(v, int) and _Refuse.lo <= v <= _Refuse.hi:
+                raise Unauthorized(str(index))
+            return v
+        c = _templates['__guarded__'] = type('GuardedHTML', (HTML,), {'guarded_getitem': staticmethod(guarded_getitem),
+                                                                       'guarded_getattr': staticmethod(getattr)})
+    return c
 
 
 class IntLike:
@@ -202,6 +223,22 @@ def _num(x):
 
 def observe(par, kind='vars', seqkind='list', as_str=False, extra=''):
     """render and return the observation dict {p,e,c,r,pl,ln,(err)}"""
+    if kind == 'guard':
+        # what is displayed is learnt from an unguarded rendering; the guard then refuses the 60 elements right behind it: the
+        # displayed rows are the same, and so is the bound on what may be pulled to find out whether anything follows
+        first = observe(par, kind='vars', seqkind=seqkind, as_str=as_str, extra=extra)
+        if first['c'] or first['e'] or not first['r']:
+            return first
+        last = first['r'][-1][0]
+        _Refuse.lo, _Refuse.hi = last + 1, last + 60
+        try:
+            return _observe(par, kind, seqkind, as_str, extra)
+        finally:
+            _Refuse.lo = _Refuse.hi = 0
+    return _observe(par, kind, seqkind, as_str, extra)
+
+
+def _observe(par, kind='vars', seqkind='list', as_str=False, extra=''):
     L, start, end, size, orphan, overlap = par
     lens = 0
     if seqkind == 'list':
